@@ -10,12 +10,13 @@ VERIF = run.VERIF
 class Scenario:
     def __init__(self, name, src, defines=(), threads=1, K=2, unwind=4, tier='quick', cover=(), timeout=None,
                  ndebug=True, note='', mt=None, unwind_map=None, prop=None, allow_unwound=False, assert_build=False,
-                 stop=(), uninit_zero=False, lin=None, portfolio=None, expect_violation=False):
+                 stop=(), uninit_zero=False, lin=None, portfolio=None, expect_violation=False, progress=(), sym_loop_cap=None, max_recursion=None):
         self.name = name; self.src = src if os.path.isabs(src) else os.path.join(VERIF, 'harness', src)
         self.defines = list(defines); self.threads = threads; self.K = K; self.unwind = unwind; self.tier = tier
         self.cover = list(cover); self.timeout = timeout; self.ndebug = ndebug; self.note = note
         self.mt = (threads > 1) if mt is None else mt
         self.unwind_map = unwind_map or {}; self.prop = prop; self.allow_unwound = allow_unwound
+        self.progress = tuple(progress); self.sym_loop_cap = sym_loop_cap; self.max_recursion = max_recursion
         self.stop = stop; self.uninit_zero = uninit_zero; self.lin = lin; self.portfolio = portfolio
 
     def bounds(self):
@@ -69,6 +70,8 @@ def _execute1(sc, mod, fixed, posmap, log, strict=False, fixed_sched=None, allow
     term.reset()
     m = Machine(mod, nthreads=max(1, sc.threads), unwind=sc.unwind, unwind_map=sc.unwind_map)
     m.uninit_zero = sc.uninit_zero
+    if sc.sym_loop_cap: m.sym_loop_cap = sc.sym_loop_cap
+    if sc.max_recursion: m.max_recursion = sc.max_recursion
     m.posmap = posmap
     m.allow_missing = allow_missing
     m.fixed_sched = fixed_sched if posmap is not None else None
@@ -108,7 +111,7 @@ def run_scenario(sc, timeout=120, log=None):
     if sc.lin is not None:
         sc.lin(m, sc)
     res = run.decide(m, sc.name, timeout=sc.timeout or timeout, expected_cover=sc.cover, log=log,
-                     portfolio=sc.portfolio or solve.DEFAULT_PORTFOLIO)
+                     portfolio=sc.portfolio or solve.DEFAULT_PORTFOLIO, progress_tids=sc.progress)
     res.compile_time = tm['compile_s']; res.exec_time = tm['exec_s']; res.bounds = sc.bounds()
     res.wall = time.time() - t00
     res.nondet_names = sorted(k for k in m.nondets if isinstance(k, int))
